@@ -1,0 +1,58 @@
+//go:build verif
+
+package file_storage
+
+// The file board as an append-only sequence of lines (checked by /verif/gocv; comment-only file).
+// The model of os.File / bufio.Scanner / fslock is in /verif/spec/ext.gocv: $flen lines with contents
+// $fline[0..$flen), a scanner that stops at the first line not shorter than its token limit.
+
+// every line so far fits the 1 MiB reader limit (a longer message is refused by GetMessages and is outside the claim)
+//@ spec func shortLines() bool = forall k int :: 0 <= k && k < $flen ==> lineLen($fline[k]) < 1048576
+
+//@ func countLines
+//@   nosafety
+//@   requires $fpos == 0 && $flen >= 0
+//@   pure
+//@   modifies $scan, $scanCap, $tok, $scanErr
+//@   loop 0 invariant count == $scan && 0 <= $scan && $scan <= $flen && $scanCap >= 1048576 && !$scanErr
+//@   ensures[C16.count] shortLines() ==> result == $flen
+
+// One message becomes one new last line whose recorded offset is its line number; nothing before it changes;
+// every file access happens while the lock is held.
+//@ func (*FileStorage).send
+//@   nosafety
+//@   requires fs != nil && $flen >= 0
+//@   pure
+//@   modifies $flen, $fline, $fpos, $scan, $scanCap, $tok, $scanErr, $locked
+//@   assert@call Seek[C16.lock] $locked
+//@   assert@call countLines[C16.lock] $locked
+//@   assert@call Fprintln[C16.lock] $locked
+//@   ensures[C16.append] result1 == nil ==> $flen == old($flen) + 1 && (old(shortLines()) ==> result0.Offset == old($flen))
+//@   ensures[C16.appendonly] forall k int :: 0 <= k && k < old($flen) ==> $fline[k] == old($fline[k])
+//@   ensures[C16.noappend] result1 != nil ==> $flen == old($flen) && $fline == old($fline)
+//@   ensures[C16.unlock] !$locked
+
+// Messages are posted in argument order, each with the next line number.
+//@ func (*FileStorage).Send
+//@   nosafety
+//@   requires fs != nil && $flen >= 0
+//@   modifies []storage.Message
+//@   modifies $flen, $fline, $fpos, $scan, $scanCap, $tok, $scanErr, $locked
+//@   loop 0 invariant $flen == old($flen) + $i + 1
+//@   loop 0 invariant forall k int :: 0 <= k && k < old($flen) ==> $fline[k] == old($fline[k])
+//@   loop 0 invariant allShort() ==> (forall j int :: 0 <= j && j <= $i ==> msgs[j].Offset == old($flen) + j)
+//@   ensures[C16.order] result == nil && allShort() ==> $flen == old($flen) + len(msgs) && (forall j int :: 0 <= j && j < len(msgs) ==> msgs[j].Offset == old($flen) + j)
+//@   ensures[C16.appendonly] forall k int :: 0 <= k && k < old($flen) ==> $fline[k] == old($fline[k])
+//@ spec func allShort() bool = forall k int :: 0 <= k && k < $flen ==> lineLen($fline[k]) < 1048576
+
+// Reading from offset k: exactly the first k lines are passed over undecoded, every later line is decoded
+// (and returned unless it is on an ignore list), and a successful call has consumed the whole file.
+//@ func (*FileStorage).GetMessages
+//@   nosafety
+//@   requires fs != nil && $flen >= 0 && offset >= 0
+//@   pure
+//@   modifies $fpos, $scan, $scanCap, $tok, $scanErr
+//@   loop 0 invariant 0 <= $scan && $scan <= $flen && $scanCap == 1048576
+//@   loop 0 invariant[C16.read.skip] offset == ite($scan >= arg0, 0, arg0 - $scan)
+//@   assert@call Unmarshal[C16.read.position] $scan - 1 >= offset
+//@   ensures[C16.read.all] result1 == nil ==> $scan == $flen
